@@ -114,7 +114,7 @@ impl Prop for FastqWrite {
                 QRec { id, desc, seq: B(seq), qual, entry, pre_fail }
             },
         );
-        let sink = prop_oneof![3 => Just((0u8, 0u16)), 2 => (Just(1u8), prop_oneof![1u16..8, 8u16..200]), 1 => (Just(2u8), prop_oneof![1u16..8, 8u16..200, Just(4096u16)])];
+        let sink = prop_oneof![3 => Just((0u8, 0u16)), 2 => (Just(1u8), prop_oneof![1u16..8, 8u16..200]), 1 => (Just(2u8), prop_oneof![1u16..8, 8u16..200, Just(4096u16)]), 1 => (Just(3u8), 0u16..5)];
         boxed((vec(rec, 1..6), prop_oneof![3 => 3usize..40, 1 => 40usize..400], sink).prop_map(|(recs, cap, sink)| WCase { recs, cap, sink }))
     }
 
@@ -250,7 +250,7 @@ impl Prop for Unchanged {
                 Format::Fasta => gen::fasta_doc_with(6, 6),
                 Format::Fastq => gen::fastq_valid_doc(6),
             };
-            let sink = prop_oneof![3 => Just((0u8, 0u16)), 1 => (Just(1u8), 1u16..40), 1 => (Just(2u8), 1u16..40)];
+            let sink = prop_oneof![3 => Just((0u8, 0u16)), 1 => (Just(1u8), 1u16..40), 1 => (Just(2u8), 1u16..40), 1 => (Just(3u8), 0u16..5)];
             let plan = (0u8..3, prop_oneof![2 => Just(0u8), 2 => 1u8..3, 1 => 3u8..8]);
             (gen::input_and_cap(f, input), gen::chunks(), any::<bool>(), sink, plan).prop_map(move |((input, cap), chunks, via_sets, sink, set_plan)| UCase { format: f, input, cap, chunks, via_sets, sink, set_plan })
         };
@@ -393,7 +393,7 @@ impl Prop for Unchanged {
     }
 }
 
-pub const RULE: &str = "sub-check fastq-write-roundtrip: 1..5 records (id/desc/header as for C10, equally long sequence and quality without LF/CR; 1 in 40 records has a header or a sequence+quality of 200..9000 bytes; 1 in 4 writes is preceded by the same call on a writer that fails with an I/O error after k bytes, result ignored) through write_to, write_parts, OwnedRecord::write, RefRecord::write (record parsed from a CRLF rendering), into a Vec or a writer that accepts only part of each buffer, parsed back at a generated capacity: head, seq, qual and id/desc parts come back. Sub-check write-unchanged: well-formed FASTQ/FASTA documents (LF, CRLF or per-record/per-line mixture, with/without final terminator, blank tail / blank lines) x capacity x chunk script x {next, 1..3 record sets used in rotation and filled with read_record_set or read_record_set_exact(n), the records of a set being written after the next set was read}: FASTQ: every record's write_unchanged output = its original bytes (+ LF iff the model says its fourth line is unterminated) and the concatenation = the input up to the end of the last record; FASTA: output ends in LF, equals the record's byte range after stripping trailing CR/LF, and re-parses to exactly one identical owned record. Non-trivial = CRLF or missing final terminator or a record straddling a refill (unchanged) / >= 2 records, empty sequence or description (round trip). Distinct = hash(case).";
+pub const RULE: &str = "sub-check fastq-write-roundtrip: 1..5 records (id/desc/header as for C10, equally long sequence and quality without LF/CR; 1 in 40 records has a header or a sequence+quality of 200..9000 bytes; 1 in 4 writes is preceded by the same call on a writer that fails with an I/O error after k bytes, result ignored) through write_to, write_parts, OwnedRecord::write, RefRecord::write (record parsed from a CRLF rendering), into a Vec, a writer that accepts only part of each buffer or one that is interrupted every few calls, parsed back at a generated capacity: head, seq, qual and id/desc parts come back. Sub-check write-unchanged: well-formed FASTQ/FASTA documents (LF, CRLF or per-record/per-line mixture, with/without final terminator, blank tail / blank lines) x capacity x chunk script x {next, 1..3 record sets used in rotation and filled with read_record_set or read_record_set_exact(n), the records of a set being written after the next set was read}: FASTQ: every record's write_unchanged output = its original bytes (+ LF iff the model says its fourth line is unterminated) and the concatenation = the input up to the end of the last record; FASTA: output ends in LF, equals the record's byte range after stripping trailing CR/LF, and re-parses to exactly one identical owned record. Non-trivial = CRLF or missing final terminator or a record straddling a refill (unchanged) / >= 2 records, empty sequence or description (round trip). Distinct = hash(case).";
 
 pub fn run(tier: Tier) -> i32 {
     let mut run = Run::new("C11", tier, "exploration");
